@@ -26,10 +26,10 @@ Definition split_case (c : str * list str) : bool := strs_eqb (split_mbox_messag
 (* _unfold_header *)
 Definition unfold_case (c : str * str) : bool := str_eqb (unfold (fst c)) (snd c).
 
-(* get_body_content on a recorded MIME tree *)
-Definition body_case (c : bool * part * (str * str)) : bool :=
-  let '(multi, root, (bp, bh)) := c in
-  let '(mp, mh) := get_body_content multi root in str_eqb mp bp && str_eqb mh bh.
+(* get_body_content (HEAD) on a recorded MIME tree: (root, (plain, html)) *)
+Definition body_case (c : part * (str * str)) : bool :=
+  let '(root, (bp, bh)) := c in
+  let '(mp, mh) := get_body_content root in str_eqb mp bp && str_eqb mh bh.
 
 (* recorded oracles *)
 Definition dh_table := list (str * list hpart).           (* decode_header: argument -> parts *)
@@ -117,3 +117,24 @@ Definition att_list_case (T : C07.Model.tables)
   | RaisedNotSupported, None => true
   | _, _ => false
   end.
+
+(* .msg: _parse_single_recipient, _parse_multi_recipients (string / list), _looks_like_html, field mapping *)
+Definition opt_pair_eqb (a b : option (str * str)) : bool :=
+  match a, b with
+  | Some (x1, x2), Some (y1, y2) => str_eqb x1 y1 && str_eqb x2 y2
+  | None, None => true
+  | _, _ => false
+  end.
+Definition msg_single_case (c : str * option (str * str)) : bool := opt_pair_eqb (parse_single_recipient (fst c)) (snd c).
+Definition msg_multi_case (c : list str * list (str * str)) : bool := pairs_eqb (parse_multi_recipients_list (fst c)) (snd c).
+Definition msg_html_case (c : str * str * bool) : bool := let '(text, lowered, r) := c in Bool.eqb (looks_like_html text lowered) r.
+(* read_msg_format_mail over a recorded msg_parser record:
+   (sender list, to list, body, lowered, html_to_text(body), [(long, short, mime, index)]) ->
+   (from, to, body_plain, body_html, [(filename, mime type)]) *)
+Definition msg_case (c : list str * list str * str * str * str * list (str * str * str * str) *
+                         ((str * str) * list (str * str) * str * str * list (str * str))) : bool :=
+  let '(sender, to, body, lowered, h2t, atts, (frm, to', plain, html, atts')) := c in
+  let '(bp, bh) := msg_bodies (fun _ => h2t) lowered body in
+  opt_pair_eqb (Some (msg_sender sender)) (Some frm) && pairs_eqb (parse_multi_recipients_list to) to'
+  && str_eqb bp plain && str_eqb bh html
+  && pairs_eqb (map (fun a => let '(l, sh, m, k) := a in msg_attachment l sh m k) atts) atts'.
